@@ -152,7 +152,7 @@ class C07(Cfg):
                 body = ("user", g("k"), a["en"] == "1") if b == "user" else \
                        ("right", g("e"), a["ms"] == "1", a["ma"] == "1") if b == "right" else \
                        ("name", g("v")) if b == "name" else ("none",)
-                rowpool[g("id")] = {"id": g("id"), "ent": g("ent"), "c": g("c"), "m": g("m"), "by": g("by"), "body": body,
+                rowpool[int(a.get("p", a["id"]))] = {"id": g("id"), "ent": g("ent"), "c": g("c"), "m": g("m"), "by": g("by"), "body": body,
                                     "sig": a.get("sig", "1") == "1"}
             elif k == "sedge":
                 edgepool[g("n")] = {"src": g("src"), "se": g("se"), "l": g("l"), "dst": g("dst"), "c": g("c"), "by": g("by"),
@@ -201,8 +201,12 @@ class C07(Cfg):
                         for i in range(n0, len(res)):
                             if res[i][0] in ("entry-altered", "entry-by-unentitled-author"):
                                 res[i] = (was_tainted, res[i][1] + " (follow-up of an accepted placing defect)")
+                    if any(sig == "duplicate-entry-id" for sig, _ in res[n0:]):
+                        for i in range(n0, len(res)):
+                            if res[i][0] == "entry-altered":
+                                res[i] = ("duplicate-entry-id", res[i][1] + " (second row with the id of a stored entry)")
                     for sig, _ in res[n0:]:
-                        if sig in ("placing-reference-label", "replayed-entry", "placing-reference-author"):
+                        if sig in ("placing-reference-label", "replayed-entry", "placing-reference-author", "duplicate-entry-id"):
                             tainted.setdefault(room, sig)
                     pending_refused = None
                 elif out.startswith("err:"):
@@ -306,6 +310,19 @@ class C07(Cfg):
         placed.setdefault(r["id"], set()).add((owner, lab))
 
     def _accepted(self, fail, specs, placed, room, c):
+        # two rows with one id in a list: only the first is compared with the stored entry, and a row whose id
+        # is stored is never judged as a new entry
+        def dup(lst, where):
+            seen = {}
+            for r in lst:
+                if r["id"] in seen and seen[r["id"]] != self._entry(r):
+                    fail("duplicate-entry-id", "list %s carries two different rows with id %d (authors %d and %d); the definition was accepted" % (
+                        where, r["id"], seen[r["id"]][1], r["by"]))
+                    return
+                seen.setdefault(r["id"], self._entry(r))
+        dup(c["admins"], "admins of %d" % room)
+        for au in c["auths"]:
+            for lst in ("rights", "users", "uadmins"): dup(au[lst], "%s of group %d" % (lst, au["row"]["id"]))
         new_room = room not in specs
         old = specs.get(room)
         spec = Spec(c["row"]) if new_room else old.clone()
